@@ -139,6 +139,11 @@ def core_candidates():
     for (a, o) in single:
         if a in ("partial_ord", "partial_eq"):
             out.append(("s_po", [(0, a, o)], ["PartialOrd", "PartialEq"], "attr"))
+    # the `$` placeholder at top level, inside (), {} and [] groups, and used twice
+    for ks in range(1, len(gen_cmp.KEY_STYLES)):
+        for sh, idx in (("s_named3", 1), ("e_mixed", 2), ("s_tuple2", 0), ("e_mixed", 3)):
+            out.append((sh, [(idx, "ord", ("key",), ks)], all4, "attr"))
+        out.append(("s_named3", [(0, "partial_ord", ("reverse", "key"), ks), (0, "eq", ("key",), ks)], ["PartialOrd", "PartialEq"], "derive"))
     return out
 
 
@@ -151,7 +156,10 @@ def run(tier):
     else:
         cands = core_candidates()
         pool = all_candidates()
-        cands += rnd.sample(pool, 160)
+        for c in rnd.sample(pool, 160):
+            # vary the spelling of key expressions in the sampled part
+            pl = [tuple(p) + ((rnd.randrange(len(gen_cmp.KEY_STYLES)),) if "key" in p[2] else ()) for p in c[1]]
+            cands.append((c[0], pl, c[2], c[3]))
     # dedupe
     seen, uniq = set(), []
     for c in cands:
